@@ -142,6 +142,21 @@ Theorem C04_placement_irrelevant : forall (H : string -> string) (cf : cfg) r s 
 Proof. exact placement_irrelevant. Qed.
 Print Assumptions C04_placement_irrelevant.
 
+(* An authorization request may be sent by GET or by POST, the parameters of a POST split in any
+   way between the URL query and the body (x_via).  Neither the answer nor the request that comes
+   into being - in particular its PKCE challenge, which later binds the code - depends on it. *)
+Theorem C04_authorize_transport_irrelevant : forall (H : string -> string) (cf : cfg) r s cl uri scopes nonce chal x,
+  let a := step H cf r s (Authorize cl uri scopes nonce chal x) in
+  let b := step H cf r s (Authorize cl uri scopes nonce chal (by_get x)) in
+  snd a = snd b
+  /\ codes (fst a) = codes (fst b) /\ rtoks (fst a) = rtoks (fst b) /\ next (fst a) = next (fst b)
+  /\ map (fun q => (q_id q, q_client q, q_uri q, q_scopes q, q_nonce q, q_chal q, q_done q, q_sub q))
+         (reqs (fst a))
+     = map (fun q => (q_id q, q_client q, q_uri q, q_scopes q, q_nonce q, q_chal q, q_done q, q_sub q))
+         (reqs (fst b)).
+Proof. exact authorize_transport_irrelevant. Qed.
+Print Assumptions C04_authorize_transport_irrelevant.
+
 (* The property predicate of the check (C04_Ledger.c04_ok folded over the history, the
    function that is evaluated on the implementation's answers) accepts every history of
    the model: all inputs, no side condition. *)
